@@ -31,6 +31,19 @@ def main():
                 ids.append(d)
     man = json.load(open(os.path.join(VERIF, "MANIFEST.json")))
     assert sh("git -C /repo status --porcelain")[1].strip() == "", "/repo is not clean"
+    # the checks rewrite evidence/<id>.json on every run: keep the clean-tree evidence and put it back afterwards
+    # (evidence written while a seeded patch is applied describes the patched tree and must never be committed)
+    ev_dir = os.path.join(VERIF, "evidence")
+    saved = {f: open(os.path.join(ev_dir, f), "rb").read() for f in os.listdir(ev_dir) if f.endswith(".json")}
+    try:
+        _run(ids, man)
+    finally:
+        for f, data in saved.items():
+            with open(os.path.join(ev_dir, f), "wb") as fh:
+                fh.write(data)
+
+
+def _run(ids, man):
     for sid in ids:
         d = os.path.join(SEEDED, sid)
         rc, out = sh(f"git -C /repo apply {d}/patch.diff")
